@@ -11,9 +11,14 @@ package commitlog
 // state after the call.  The verdict is taken by TLC (Trace_CommitLog.tla).
 
 import (
+	"context"
 	"fmt"
 	"os"
+	"sync"
 	"testing"
+	"time"
+
+	pkgErrors "github.com/pkg/errors"
 )
 
 type vRdState struct {
@@ -61,7 +66,90 @@ type vEvent struct {
 	Rb   []vReadBack            `json:"rb"`
 }
 
+// vTail is a persistent reader that is read by its own goroutine with a live
+// context, so that it really blocks at the end of the log (or at the HW) and is
+// woken by later appends / HW advances / segment rolls.
+type vTail struct {
+	mu     sync.Mutex
+	got    []vRec
+	err    string
+	done   chan struct{}
+	cancel context.CancelFunc
+}
+
+func (tl *vTail) take() ([]vRec, string) {
+	tl.mu.Lock()
+	defer tl.mu.Unlock()
+	g, e := tl.got, tl.err
+	tl.got = nil
+	return g, e
+}
+
+func (tl *vTail) count() int {
+	tl.mu.Lock()
+	defer tl.mu.Unlock()
+	return len(tl.got)
+}
+
+func vStartTail(rdr *Reader) *vTail {
+	ctx, cancel := context.WithCancel(context.Background())
+	tl := &vTail{done: make(chan struct{}), cancel: cancel}
+	go func() {
+		defer close(tl.done)
+		defer func() {
+			if p := recover(); p != nil {
+				tl.mu.Lock()
+				tl.err = fmt.Sprintf("panic:%v", p)
+				tl.mu.Unlock()
+			}
+		}()
+		headers := make([]byte, msgSetHeaderLen)
+		for i := 0; i < vMaxRead; i++ {
+			m, off, ts, ep, err := rdr.ReadMessage(ctx, headers)
+			if err != nil {
+				if ctx.Err() == nil {
+					c := pkgErrors.Cause(err)
+					if c != ErrCommitLogReadonly && err != ErrCommitLogReadonly {
+						tl.mu.Lock()
+						tl.err = "error:" + err.Error()
+						tl.mu.Unlock()
+					}
+				}
+				return
+			}
+			rec := vDecode(m, off, ts, ep)
+			tl.mu.Lock()
+			tl.got = append(tl.got, rec)
+			tl.mu.Unlock()
+		}
+	}()
+	return tl
+}
+
+// vParked reports whether the reader's goroutine is registered as a waiter
+// (for data on a segment, or for the HW on the log).
+func vParked(l *commitLog, rdr *Reader) bool {
+	switch cr := rdr.ctxReader.(type) {
+	case *uncommittedReader:
+		for _, s := range l.Segments() {
+			s.RLock()
+			_, ok := s.waiters[cr]
+			s.RUnlock()
+			if ok {
+				return true
+			}
+		}
+	case *committedReader:
+		l.mu.RLock()
+		_, ok := l.hwWaiters[cr]
+		l.mu.RUnlock()
+		return ok
+	}
+	return false
+}
+
 type vC01Run struct {
+	tails map[string]*vTail
 	t       *testing.T
 	dir     string
 	cfg     vCfg
@@ -111,6 +199,70 @@ func (r *vC01Run) readBacks(newest int64) []vReadBack {
 		}
 	}
 	return out
+}
+
+// collectTail waits until the tailing reader is blocked again (or has ended) and
+// returns what it delivered since the last collection.
+func (r *vC01Run) collectTail(name string) ([]vRec, string) {
+	tl := r.tails[name]
+	rdr := r.readers[name]
+	deadline := time.Now().Add(2 * time.Second)
+	for time.Now().Before(deadline) {
+		select {
+		case <-tl.done:
+			got, e := tl.take()
+			delete(r.tails, name)
+			if e == "" {
+				// the reader ended (read-only end of log): it is an ordinary reader again
+				return got, ""
+			}
+			return got, e
+		default:
+		}
+		if vParked(r.l, rdr) {
+			n := tl.count()
+			time.Sleep(200 * time.Microsecond)
+			if vParked(r.l, rdr) && tl.count() == n {
+				got, e := tl.take()
+				return got, e
+			}
+		}
+		// An uncommitted reader at the end of a FULL active segment never registers
+		// as a waiter (the code spins until the next segment appears): it is
+		// quiescent once it has delivered the newest record.
+		if _, unc := rdr.ctxReader.(*uncommittedReader); unc {
+			act := r.l.activeSegment()
+			if act.Position() >= act.maxBytes && r.tailReached(name, tl) {
+				time.Sleep(time.Millisecond)
+				got, e := tl.take()
+				return got, e
+			}
+		}
+		time.Sleep(100 * time.Microsecond)
+	}
+	got, _ := tl.take()
+	return got, "not-parked"
+}
+
+// tailReached reports whether the tailing reader has delivered up to the newest offset.
+func (r *vC01Run) tailReached(name string, tl *vTail) bool {
+	newest := r.l.NewestOffset()
+	tl.mu.Lock()
+	defer tl.mu.Unlock()
+	if n := len(tl.got); n > 0 {
+		return tl.got[n-1].Off >= newest
+	}
+	return r.rd[name].Next > newest
+}
+
+// stopTails ends every tailing goroutine (before operations that invalidate or
+// replace readers); the readers stay usable for non-blocking drains.
+func (r *vC01Run) stopTails() {
+	for name, tl := range r.tails {
+		tl.cancel()
+		<-tl.done
+		delete(r.tails, name)
+	}
 }
 
 func vErrClass(err error) string {
@@ -179,6 +331,7 @@ func (r *vC01Run) step(id int, step map[string]interface{}) vEvent {
 				obs.Ret = offs
 			}
 		case "Truncate":
+			r.stopTails()
 			o := vInt(step, "o")
 			args["o"] = o
 			obs.Err = vErrClass(r.l.Truncate(o))
@@ -201,6 +354,7 @@ func (r *vC01Run) step(id int, step map[string]interface{}) vEvent {
 			args["b"] = b
 			r.l.SetReadonly(b)
 		case "Reopen":
+			r.stopTails()
 			if err := r.l.Close(); err != nil {
 				obs.Err = vErrClass(err)
 			}
@@ -227,7 +381,7 @@ func (r *vC01Run) step(id int, step map[string]interface{}) vEvent {
 				r.readers[name] = rdr
 				r.rd[name] = vRdState{Alive: true, C: c, Next: s, Parked: parked, Base: base}
 			}
-		case "Drain":
+		case "Drain", "Tail":
 			name := vStr(step, "r")
 			args["r"] = name
 			rdr, ok := r.readers[name]
@@ -235,11 +389,25 @@ func (r *vC01Run) step(id int, step map[string]interface{}) vEvent {
 				obs.A, a = "Skip", "Skip"
 				return
 			}
-			got, e := vDrain(rdr)
+			var got []vRec
+			var e string
+			if a == "Tail" && r.tails[name] == nil {
+				r.tails[name] = vStartTail(rdr)
+			}
+			obs.A, a = "Drain", "Drain"
+			if r.tails[name] != nil {
+				got, e = r.collectTail(name)
+			} else {
+				got, e = vDrain(rdr)
+			}
 			obs.Ret = vFps(got)
 			if e != "" {
 				// a reader that failed is not used again
 				obs.Err = e
+				if tl := r.tails[name]; tl != nil {
+					tl.cancel()
+					delete(r.tails, name)
+				}
 				delete(r.readers, name)
 				r.rd[name] = vRdState{}
 			}
@@ -280,6 +448,7 @@ func TestVerifCommitLog(t *testing.T) {
 			dir:     vTempDir(t),
 			cfg:     vCfg{MaxBytes: vInt(b.Cfg, "maxBytes"), Occ: vBool(b.Cfg, "occ")},
 			readers: map[string]*Reader{},
+			tails:   map[string]*vTail{},
 			rd:      map[string]vRdState{"r1": {}, "r2": {}},
 		}
 		run.open()
@@ -288,7 +457,15 @@ func TestVerifCommitLog(t *testing.T) {
 			Obs: vObs{A: "Open", Ret: []int64{}}, Rb: run.readBacks(-1)})
 		for _, step := range b.Steps {
 			tw.Emit(run.step(b.ID, step))
+			// readers that are blocked in their own goroutine were woken by the step:
+			// what they delivered is recorded as a Drain of that reader
+			for _, name := range []string{"r1", "r2"} {
+				if run.tails[name] != nil && vStr(step, "a") != "Tail" && vStr(step, "a") != "Drain" {
+					tw.Emit(run.step(b.ID, map[string]interface{}{"a": "Drain", "r": name}))
+				}
+			}
 		}
+		run.stopTails()
 		run.l.Close()
 		os.RemoveAll(run.dir)
 	}
